@@ -109,6 +109,13 @@ func BuildHandshake(s Source, keys []refsrv.RSAKeyJSON, corner Corner, inject bo
 	hs.PQPad8 = s.Int("pqpad", 2) == 1
 	hs.A = s.Bytes("a", 256)
 	hs.A[0] |= 0x40
+	// a server may offer several RSA keys: the one the client knows first, last or in the middle
+	for i, n := 0, s.Int("fp_before", 3); i < n; i++ {
+		hs.ExtraFP = append(hs.ExtraFP, int64(binary.LittleEndian.Uint64(s.Bytes("fp", 8))))
+	}
+	for i, n := 0, s.Int("fp_after", 3); i < n; i++ {
+		hs.ExtraFPAfter = append(hs.ExtraFPAfter, int64(binary.LittleEndian.Uint64(s.Bytes("fp", 8))))
+	}
 	sc.HS = hs
 	needInject := inject || corner.Field == "nonce" || corner.Field == "new_nonce" || corner.Field == "new_nonce_hash1" || corner.Field == "rsa_ciphertext" || corner.Field == "g_b" || corner.Field == "g_ab"
 	if needInject {
